@@ -6,3 +6,4 @@ func stringsTrim(s string) string                    { return strings.TrimSpace(
 func stringsToLower(s string) string                 { return strings.ToLower(s) }
 func stringsCount(s, sub string) int                 { return strings.Count(s, sub) }
 func stringsReplace(s, old, nw string, n int) string { return strings.Replace(s, old, nw, n) }
+func stringsIndexRune(s string, r rune) int          { return strings.IndexRune(s, r) }
